@@ -143,6 +143,12 @@ void add_high(std::vector<Case> &cases) {
 }
 void hx_cases(std::vector<Case> &cases) {
   add_high<6>(cases);
+  add_high<7>(cases);
+  add_high<9>(cases);
+  add_high<11>(cases);
+  add_high<12>(cases);
+  add_high<13>(cases);
+  add_high<16>(cases);
   add_high<8>(cases);
   add_high<10>(cases);
   add_high<20>(cases);
